@@ -249,6 +249,135 @@ def expected_deliveries(case: dict, table, m) -> list:
 
 
 # ------------------------------------------------------------------------------------------------
+# K_C02d — accepted connections: a bad first frame closes that connection only
+# ------------------------------------------------------------------------------------------------
+
+def eval_accept(case: dict) -> dict:
+    from aioslsk.network.network import Network, PeerFuture
+    from aioslsk.network.connection import ConnectionState
+    from aioslsk.settings import Settings
+    from aioslsk.events import EventBus, MessageReceivedEvent, ConnectionStateChangedEvent
+    m, _, _ = _mods()
+    out = {'exc': None}
+
+    async def main(loop):
+        fn = fakenet.FakeNet().install()
+        try:
+            bus = EventBus()
+            keep = []
+            delivered = []
+            states = []
+
+            async def on_msg(ev):
+                delivered.append((id(ev.connection), type(ev.message).__qualname__))
+
+            async def on_state(ev):
+                states.append((id(ev.connection), ev.state.name, ev.close_reason.name))
+            keep += [on_msg, on_state]
+            bus.register(MessageReceivedEvent, on_msg)
+            bus.register(ConnectionStateChangedEvent, on_state)
+            s = Settings(credentials={'username': 'me', 'password': 'pw'},
+                         network={'listening': {'port': 60000, 'obfuscated_port': 60001}, 'upnp': {'enabled': False}})
+            net = Network(s, bus)
+            await net.connect_listening_ports()
+            port = 60001 if case['obf'] else 60000
+            for t in case['tickets']:
+                net._expected_connection_futures[t] = PeerFuture(t, 'waiting-user', 'P')
+            # bystander: a well-behaved incoming peer
+            b_r, b_w = await fn.connect_in(60000, ('10.0.0.7', 1111))
+            b_w.write(m.PeerInit.Request('bystander', 'P', 5).serialize())
+            await simloop.settle()
+            by = [c for c in net.peer_connections if c.username == 'bystander']
+            before = list(net.peer_connections)
+            # the hostile / odd peer
+            h_r, h_w = await fn.connect_in(port, ('10.0.0.8', 2222))
+            await simloop.settle()
+            new = [c for c in net.peer_connections if c not in before]
+            stream = case['stream']
+            pos = 0
+            for seg in case['segments']:
+                h_w.write(stream[pos:pos + seg])
+                pos += seg
+                await simloop.settle()
+            if case['then_eof']:
+                h_w.close()
+                await simloop.settle()
+            await simloop.advance(1)
+            conn = new[0] if new else None
+            out['accepted'] = conn is not None
+            if conn is not None:
+                out['state'] = conn.state.name
+                out['registered'] = conn in net.peer_connections
+                out['remote_sees_eof'] = h_r.at_eof()
+                out['closes'] = [r for cid, st, r in states if cid == id(conn) and st == 'CLOSED']
+                out['established'] = conn.connection_state.name != 'AWAITING_INIT'    # init accepted (it may have been closed by EOF since)
+            # the bystander is unaffected and still served exactly once
+            out['bystander_ok'] = bool(by) and by[0].state == ConnectionState.CONNECTED and by[0] in net.peer_connections
+            n0 = len([d for d in delivered if by and d[0] == id(by[0])])
+            b_w.write(m.PeerUserInfoRequest.Request().serialize())
+            await simloop.settle()
+            out['bystander_delivered'] = len([d for d in delivered if by and d[0] == id(by[0])]) - n0
+            out['listening_ok'] = all(lc is None or lc.state == ConnectionState.CONNECTED for lc in net.listening_connections)
+            out['loop_exc'] = list(loop.exceptions)
+            await net.disconnect()
+        finally:
+            fn.uninstall()
+
+    try:
+        simloop.run(main, wall_timeout=20)
+    except Exception as e:  # noqa: BLE001
+        out['exc'] = f'{type(e).__name__}: {e}'
+    return out
+
+
+def accept_case(rng: random.Random, table: list, m, p) -> dict:
+    obf = rng.random() < 0.4
+    tickets = rng.choice([[], [77], [77, 78]])
+    kind = rng.choice(['peerinit', 'pierce-known', 'pierce-unknown', 'other-msg', 'undecodable', 'unknown-code',
+                       'truncated', 'nothing', 'lying-length', 'garbage-body'])
+    then_eof = rng.random() < 0.5
+    if kind == 'peerinit':
+        frame = m.PeerInit.Request('someone', rng.choice(['P', 'D', 'F']), rng.choice([1, 5, 2 ** 32 - 1])).serialize()
+    elif kind == 'pierce-known' and tickets:
+        frame = m.PeerPierceFirewall.Request(tickets[0]).serialize()
+    elif kind in ('pierce-known', 'pierce-unknown'):
+        kind = 'pierce-unknown'
+        frame = m.PeerPierceFirewall.Request(rng.choice([0, 1, 999, 2 ** 32 - 1])).serialize()
+    elif kind == 'other-msg':
+        frame = m.PeerUserInfoRequest.Request().serialize()      # a peer message where an init message is expected
+    elif kind == 'undecodable':
+        frame = fix_len(m.PeerInit.Request('someone', 'P', 5).serialize()[:rng.randrange(6, 14)])
+    elif kind == 'unknown-code':
+        frame = fix_len(struct.pack('<I', 0) + bytes([rng.choice([2, 7, 200, 255])]) + b'abc')
+    elif kind == 'garbage-body':
+        frame = fix_len(b'\x00\x00\x00\x00' + bytes(rng.randrange(256) for _ in range(rng.choice([1, 5, 40, 5000]))))
+    elif kind == 'truncated':
+        f = m.PeerInit.Request('someone', 'P', 5).serialize()
+        frame = f[:rng.randrange(1, len(f))]
+        then_eof = True
+    elif kind == 'lying-length':
+        frame = struct.pack('<I', rng.choice([1 << 20, 0xFFFFFFFF])) + b'\x01abc'
+        then_eof = True
+    else:
+        frame = b''
+        then_eof = True
+    if obf and frame:
+        from aioslsk.protocol import obfuscation
+        wire = obfuscation.encode(frame, bytes(rng.randrange(256) for _ in range(4)))
+        if kind in ('truncated', 'lying-length'):
+            wire = wire[:max(1, len(wire) - rng.randrange(0, 3))] if kind == 'truncated' else wire
+    else:
+        wire = frame
+    segs, left = [], len(wire)
+    while left > 0:
+        k = min(left, rng.choice([left, 1, 2, 3, 5, 9]))
+        segs.append(k)
+        left -= k
+    return {'case_kind': 'accept', 'obf': obf, 'tickets': tickets, 'first': kind, 'stream': wire, 'segments': segs,
+            'then_eof': then_eof}
+
+
+# ------------------------------------------------------------------------------------------------
 # K_C02c — full client, handlers
 # ------------------------------------------------------------------------------------------------
 
@@ -435,6 +564,48 @@ class C02(Property):
                     res.disagreements.append(Disagreement(case, impl_line[:300], bmodel[k][:300], 'reader'))
             if len(res.samples) < 2 and 1 <= len(c['frames']) <= 3 and len(c['stream']) < 120:
                 res.samples.append({'case': case, 'impl': impl_line[:200]})
+        # ---- (d) accepted connections
+        nd = (150 if tier == 'quick' else 3000) * widen
+        dcases = [accept_case(rng, table, m, p) for _ in range(nd)]
+        dout = common.parallel_map(eval_accept, dcases, chunksize=8)
+        dmodel = None
+        if model_ok:
+            dlines = [f'accept {1 if c["obf"] else 0} {wc.hexs(c["stream"])} {",".join(map(str, c["tickets"])) or "-"}'
+                      for c in dcases]
+            dmodel = common.run_driver(self.driver_file, dlines)
+        for k, (c, o) in enumerate(zip(dcases, dout)):
+            res.evaluations += 1
+            res.count('d:first=' + c['first'])
+            case = dict(c)
+            case['stream'] = wc.hexs(c['stream'])
+            res.nontrivial_keys.add(common.sha(case))
+            if o.get('exc') or not o.get('accepted'):
+                res.violations.append(Violation('C02-harness-or-impl-error', str(o.get('exc') or 'connection not accepted'), case))
+                continue
+            # the model speaks about a stream that ended (EOF); without EOF a still-incomplete first frame is pending
+            complete = c['then_eof'] or c['first'] not in ('truncated', 'lying-length', 'nothing')
+            if o['established']:
+                impl_line = 'established'
+            elif o['closes']:
+                impl_line = 'closed ' + {'EOF': 'eof', 'READ_ERROR': 'readError', 'REQUESTED': 'requested'}.get(o['closes'][0], o['closes'][0])
+            else:
+                impl_line = 'pending'
+            bad = c['first'] in ('undecodable', 'unknown-code', 'garbage-body', 'other-msg', 'pierce-unknown')
+            if bad and (not o['closes'] or o['registered'] or not o['remote_sees_eof']):   # (state attribute: C10)
+                res.violations.append(Violation(
+                    'C02-bad-first-frame-not-closed', f'accepted connection with first frame "{c["first"]}" was not closed '
+                    f'(state {o["state"]}, registered {o["registered"]}, remote sees EOF {o["remote_sees_eof"]})', case, observed=o))
+            if not o['bystander_ok'] or o['bystander_delivered'] != 1 or not o['listening_ok']:
+                res.violations.append(Violation('C02-bystander', 'another connection / the listening port was affected',
+                                                case, observed=o))
+            if o['loop_exc']:
+                res.violations.append(Violation('C02-loop-exception', 'exception reached the loop handler', case, observed=o['loop_exc'][:2]))
+            if len(o.get('closes', [])) > 1:
+                res.violations.append(Violation('C02-close-count', f'CLOSED reported {len(o["closes"])} times', case))
+            if dmodel is not None and complete:
+                res.traces_validated += 1
+                if dmodel[k] != impl_line:
+                    res.disagreements.append(Disagreement(case, impl_line, dmodel[k], 'accept'))
         # ---- (c) full client
         nc = (24 if tier == 'quick' else 400) * widen
         resp = [i for i, s in enumerate(table) if s['family'] == 'server' and s['dir'] == 'response' and s['name'] != 'Login']
@@ -478,6 +649,15 @@ class C02(Property):
                 vs.append(Violation('C02-decoder-fatal', r, case))
             if dt > 2.0:
                 vs.append(Violation('C02-decoder-work', f'{dt:.1f}s', case))
+        elif kind == 'accept':
+            c = dict(case)
+            c['stream'] = b'' if case['stream'] == '-' else bytes.fromhex(case['stream'])
+            o = eval_accept(c)
+            bad = c['first'] in ('undecodable', 'unknown-code', 'garbage-body', 'other-msg', 'pierce-unknown')
+            if bad and (not o.get('closes') or o.get('registered') or not o.get('remote_sees_eof')):
+                vs.append(Violation('C02-bad-first-frame-not-closed', 'bad first frame, connection not closed', case, observed=o))
+            if not o.get('bystander_ok') or o.get('bystander_delivered') != 1:
+                vs.append(Violation('C02-bystander', 'another connection was affected', case, observed=o))
         elif kind == 'client':
             msgs = [(i, _parse(table[i], txt)) for i, txt in case['msgs']]
             o = eval_client({'table': table, 'msgs': msgs})
